@@ -154,8 +154,7 @@ def e2e(run, rt, tmp, quick):
                     if canon(back[1]) != canon(pdf):
                         run.violation("%s: data read back differs from the data written: %s vs %s" % (tag, _short(canon(back[1])), _short(canon(pdf))), {"kind": "roundtrip", "tag": tag})
                     if back[1].index.name != pdf.index.name:
-                        fid = "D25" if (reader == "arrow" and pdf.index.name is None and back[1].index.name == "__null_dask_index__") else None
-                        run.violation("%s: index name %r read back as %r" % (tag, pdf.index.name, back[1].index.name), {"kind": "roundtrip", "tag": tag}, finding=fid)
+                        run.violation("%s: index name %r read back as %r" % (tag, pdf.index.name, back[1].index.name), {"kind": "roundtrip", "tag": tag})
                     # reference for everything below: the data read in full into memory (in the column dtypes dask-expr itself uses)
                     mem = back[1]
                     if cd and d.known_divisions:
